@@ -168,13 +168,43 @@ fn variants_for(env: &Env, base: &Plan, words: &[String], j: usize, len: usize, 
             vec![Op::Clock { dt: 1_000_000_000 }, Op::SetFile { file: FileId::Autocorrect, st: doc.clone(), mt: Mt::Now }, Op::Update { h, cfg: spawn_cfg(base) }],
         ));
     }
-    // right-shape documents with unusual values for a word that is typed afterwards
+    // right-shape documents with unusual values for a word that is typed afterwards; these
+    // get a deeper continuation: the word is learned twice in a row (the second commit
+    // moves the choice to another index, also to the unusual entry itself) and then typed
+    // with a suffix
+    let deep: Vec<Op> = {
+        let mut g = Gen::new(env, seed ^ 0xDEE9, Tier::Thorough);
+        let mut ops = Vec::new();
+        if let Some(w) = words.first() {
+            for r in [0u8, 0, 1] {
+                g.type_and_refresh(&mut ops, h, w);
+                ops.push(Op::Commit { h, idx: Idx::Other(r) });
+            }
+            let core: String = w.chars().filter(|c| c.is_ascii_alphabetic()).collect();
+            if !core.is_empty() {
+                for _ in 0..2 {
+                    let sfx = g.short_suffix();
+                    g.type_and_refresh(&mut ops, h, &format!("{}{}", core, sfx));
+                    ops.push(Op::Finish { h });
+                }
+            }
+        }
+        ops
+    };
+    let mk_deep = |post: Vec<Op>| -> Plan {
+        let mut ops: Vec<Op> = base.ops[..=j].to_vec();
+        ops.extend(post);
+        ops.extend(deep.iter().cloned());
+        ops.extend(cont.iter().cloned());
+        Plan { scenario: Scenario::UserfileFaults, hash_seed: base.hash_seed, prelude: base.prelude.clone(), ops }
+    };
     if with_corpus {
         if let Some(core) = words.first().map(|w| w.chars().filter(|c| c.is_ascii_alphabetic()).collect::<String>()).filter(|c| !c.is_empty()) {
             for v in ["\u{09B8}\u{09BE}\u{09B0}", "ab\u{0995}\u{09BF}", "\u{1F600}", "caf\u{00E9}", "", "`", ":"] {
                 let doc = FileSt::Text(serde_json::json!({ core.clone(): v }).to_string());
-                out.push(mk(vec![], vec![Op::SetFile { file: FileId::Autocorrect, st: doc.clone(), mt: Mt::Now }, Op::Restart { h }]));
-                out.push(mk(vec![], vec![Op::SetFile { file: FileId::Store, st: doc, mt: Mt::Now }, Op::Restart { h }]));
+                out.push(mk_deep(vec![Op::SetFile { file: FileId::Autocorrect, st: doc.clone(), mt: Mt::Now }, Op::Restart { h }]));
+                out.push(mk_deep(vec![Op::SetFile { file: FileId::Store, st: doc.clone(), mt: Mt::Now }, Op::Restart { h }]));
+                out.push(mk_deep(vec![Op::Clock { dt: 1_000_000_000 }, Op::SetFile { file: FileId::Autocorrect, st: doc, mt: Mt::Now }, Op::Update { h, cfg: spawn_cfg(base) }]));
             }
         }
     }
